@@ -5,5 +5,5 @@ P=$1; PROP=$2; S=${3:-1}
 WT=/tmp/wt-rev
 git -C $WT reset -q --hard; git -C $WT checkout -q --detach $(git -C /repo rev-parse HEAD)
 git -C $WT apply "$P" || { echo "patch does not apply"; exit 3; }
-VERIF_REPO=$WT VERIF_BUILD=/tmp/vb-rev VERIF_SCALE=$S timeout 1500 python3 /verif/vcheck.py $PROP 2>&1 | grep -E "failing class|^  [a-z]|VIOLATION|property=|BUILD-FAILED" | head -${TAILN:-6}
+VERIF_EVIDENCE=/tmp/vb-rev/evidence VERIF_REPO=$WT VERIF_BUILD=/tmp/vb-rev VERIF_SCALE=$S timeout 1500 python3 /verif/vcheck.py $PROP 2>&1 | grep -E "failing class|^  [a-z]|VIOLATION|property=|BUILD-FAILED" | head -${TAILN:-6}
 git -C $WT reset -q --hard
